@@ -162,13 +162,14 @@ class Part:
     """
 
     def __init__(self, name, kind, judge, strategy=None, items=None, budget=None, exhaustive=False,
-                 shards=None, shrink_s=None):
+                 shards=None, shrink_s=None, prelude=True):
         self.name, self.kind, self.judge = name, kind, judge
         self.strategy, self.items = strategy, items
         self.budget = budget or {}
         self.exhaustive = exhaustive
         self.shards = shards
         self.shrink_s = shrink_s
+        self.prelude = prelude     # False: never run the process-history medley before this part (vlib/prelude.py)
 
 
 def lib_frames(tb):
